@@ -113,8 +113,7 @@ EXPORT errno_t _memmove32_s_chk(uint32_t *dest, rsize_t dmax,
     if (srcbos == BOS_UNKNOWN) {
         BND_CHK_PTR_BOUNDS(src, smax);
     } else if (unlikely(smax > srcbos)) {
-        invoke_safe_mem_constraint_handler("memmove32_s: slen exceeds src",
-                                           (void *)src, EOVERFLOW);
+        handle_mem_error((void *)dest, dmax, "memmove32_s: slen exceeds src", EOVERFLOW);
         return (RCNEGATE(EOVERFLOW));
     }
 
